@@ -1,4 +1,6 @@
 import CoxeterVerif.Lemmas.Polyhedron
+import CoxeterVerif.Lemmas.PolytriBoundary
+import CoxeterVerif.Props.C04
 /-!
   # C02 — general (non-convex) polyhedron volume, centroid, inertia are exact
 
@@ -204,5 +206,174 @@ example : ChainEq exTetC02.bdry ([exTetC02].flatMap Tet.bdry) ∧ 0 < Spec.vol [
   constructor
   · simpa using ChainEq.refl _
   · unfold Spec.vol Spec.tetVol exTetC02; unfold_model; norm_num
+
+/-! ### the surface triangulation: `polytri.triangulate` output bounds the face polygon
+
+  `Polytri.triangulate` is the executable model of `coxeter/extern/polytri/polytri.py::triangulate`
+  (compared triangle by triangle with the Python on every check run). The theorems below hold for
+  polygons with ANY number of vertices: they are proved by induction on the fuel of the ear
+  clipping loop (`Polytri.loop_boundary` in `Lemmas/PolytriBoundary.lean`).
+-/
+
+/-- **C02 ear clipping, boundary chain (with vertex count).** Whenever the ear clipping succeeds,
+the directed boundary of the emitted triangles plus the edge cycle of the leftover vertices `rest`
+is chain-equal to the polygon's own directed edge cycle. The leftover is either at most two
+vertices (regular exit) or satisfies the model's degenerate-remainder exit test (no ear left and
+`|Σ p_k × p_{k+1}|² ≤ 1e-12 |normal|²`). Every clipped vertex accounts for at most one triangle,
+and `rest` is a sub-list of the polygon's vertices (at least two of them if the polygon has two). -/
+theorem polytri_boundary_count (poly : List (V3 ℝ)) (tris : List (Tri ℝ))
+    (h : Polytri.triangulate poly = .ok tris) :
+    ∃ rest : List (V3 ℝ),
+      EdgeChainEq (cycleEdges poly) (tris.flatMap triEdges ++ cycleEdges rest) ∧
+      (rest.length ≤ 2 ∨ Polytri.restDegenerate (Polytri.newell poly) rest) ∧
+      tris.length + rest.length ≤ poly.length ∧
+      (2 ≤ poly.length → 2 ≤ rest.length) ∧
+      rest.Sublist poly := by
+  unfold Polytri.triangulate at h
+  simp only [] at h
+  split_ifs at h
+  obtain ⟨new, rest, hnew, hp⟩ := Polytri.loop_boundary _ _ _ _ _ _ h
+  simp only [List.reverse_nil, List.nil_append] at hnew
+  subst hnew
+  exact ⟨rest, hp.chain, hp.exit, hp.count, hp.two, hp.sub⟩
+
+/-- **C02 ear clipping, boundary chain.** -/
+theorem polytri_boundary (poly : List (V3 ℝ)) (tris : List (Tri ℝ))
+    (h : Polytri.triangulate poly = .ok tris) :
+    ∃ rest : List (V3 ℝ),
+      EdgeChainEq (cycleEdges poly) (tris.flatMap triEdges ++ cycleEdges rest) ∧
+      (rest.length ≤ 2 ∨ Polytri.restDegenerate (Polytri.newell poly) rest) := by
+  obtain ⟨rest, h1, h2, _⟩ := polytri_boundary_count poly tris h
+  exact ⟨rest, h1, h2⟩
+
+/-- an `n`-gon yields at most `n − 2` triangles -/
+theorem polytri_length_le (poly : List (V3 ℝ)) (tris : List (Tri ℝ))
+    (h : Polytri.triangulate poly = .ok tris) : tris.length ≤ poly.length - 2 := by
+  unfold Polytri.triangulate at h
+  simp only [] at h
+  split_ifs at h
+  obtain ⟨new, rest, hnew, hp⟩ := Polytri.loop_boundary _ _ _ _ _ _ h
+  simp only [List.reverse_nil, List.nil_append] at hnew
+  subst hnew
+  exact hp.le
+
+/-- a leftover of at most two vertices is the zero chain: `(a,b),(b,a)` cancel and the loop edge
+`(a,a)` has odd-functional value 0 -/
+theorem triangulates_of_short_rest {poly rest : List (V3 ℝ)} {tris : List (Tri ℝ)}
+    (h : EdgeChainEq (cycleEdges poly) (tris.flatMap triEdges ++ cycleEdges rest))
+    (hr : rest.length ≤ 2) : Triangulates poly tris := by
+  have := h.trans (EdgeChainEq.append_left _ (cycleEdges_short hr))
+  simpa [Triangulates] using this
+
+/-- **C02 ear clipping triangulates the face.** If the ear clipping of an `n`-gon succeeds with
+`n − 2` triangles (the regular exit: no degenerate remainder, no duplicate vertex skipped), then
+the triangles' boundary chain IS the polygon's edge cycle — the hypothesis `Triangulates` of the
+C04 area/centroid/moment theorems, and (face by face) the surface chain `S` the volume, centroid
+and inertia theorems above integrate over. -/
+theorem polytri_triangulates (poly : List (V3 ℝ)) (tris : List (Tri ℝ))
+    (h : Polytri.triangulate poly = .ok tris) (hn : poly.length ≤ tris.length + 2) :
+    Triangulates poly tris := by
+  obtain ⟨rest, hc, _, hcount, _, _⟩ := polytri_boundary_count poly tris h
+  exact triangulates_of_short_rest hc (by omega)
+
+/-- **C02 ear clipping preserves the vector area up to the exit tolerance.** In every successful
+run (regular or degenerate-remainder exit) the polygon's `Σ p × q` over its edge cycle equals the
+sum of the emitted triangles' `Σ p × q` (twice their vector areas) plus a defect `d` with
+`|d|² ≤ 1e-12 |normal|²`; `d = 0` on the regular exit. -/
+theorem polytri_area_defect (poly : List (V3 ℝ)) (tris : List (Tri ℝ))
+    (h : Polytri.triangulate poly = .ok tris) :
+    ∃ d : V3 ℝ,
+      (∀ c, sumEdges (Polytri.crossPhi c) (cycleEdges poly)
+          = (tris.map fun t => sumEdges (Polytri.crossPhi c) (triEdges t)).sum + d.get c) ∧
+      V3.dot d d ≤ (lit 1 / lit 1000000000000) * V3.dot (Polytri.newell poly) (Polytri.newell poly) := by
+  obtain ⟨rest, hc, hex⟩ := polytri_boundary poly tris h
+  have key : ∀ c, sumEdges (Polytri.crossPhi c) (cycleEdges poly)
+      = (tris.map fun t => sumEdges (Polytri.crossPhi c) (triEdges t)).sum
+        + sumEdges (Polytri.crossPhi c) (cycleEdges rest) := by
+    intro c
+    rw [hc _ (Polytri.crossPhi_odd c), sumEdges_append, sumEdges_flatMap]
+  rcases hex with hshort | hdeg
+  · refine ⟨V3.zero, fun c => ?_, ?_⟩
+    · rw [key c, cycleEdges_short hshort _ (Polytri.crossPhi_odd c)]
+      simp only [V3.get, V3.zero, Scalar.lit, Scalar.ofNat_real]; split_ifs <;> simp [sumEdges]
+    · have : 0 ≤ V3.dot (Polytri.newell poly) (Polytri.newell poly) := by
+        simp only [V3.dot]; nlinarith [mul_self_nonneg (Polytri.newell poly).x,
+          mul_self_nonneg (Polytri.newell poly).y, mul_self_nonneg (Polytri.newell poly).z]
+      simp only [V3.dot, V3.zero, Scalar.lit, Scalar.ofNat_real] at this ⊢
+      push_cast; nlinarith
+  · exact ⟨Polytri.restVec rest, fun c => by rw [key c, Polytri.restVec_get], hdeg⟩
+
+theorem crossPhi_tri (t : Tri ℝ) (c : Nat) :
+    sumEdges (Polytri.crossPhi c) (triEdges t) = t.nvec.get c := by
+  obtain ⟨⟨ax, ay, az⟩, ⟨bx, b_y, bz⟩, ⟨cx, cy, cz⟩⟩ := t
+  simp only [sumEdges, triEdges, Polytri.crossPhi, Tri.nvec, V3.cross, V3.get, List.map_cons,
+    List.map_nil, List.sum_cons, List.sum_nil, V3.sub_x, V3.sub_y, V3.sub_z]
+  split_ifs <;> ring
+
+/-- **C02 ear clipping preserves the Newell normal (vector area).** In every successful run the
+triangle normal vectors `(b−a)×(c−a)` (twice the vector areas) add up to minus the Newell vector
+`calculate_normal_3d` computed for the polygon (which is `−Σ p_k × p_{k+1}`), up to a defect `d`
+with `|d|² ≤ 1e-12 |normal|²` — the tolerance of the degenerate-remainder exit. -/
+theorem polytri_normal_preserved (poly : List (V3 ℝ)) (tris : List (Tri ℝ))
+    (h : Polytri.triangulate poly = .ok tris) :
+    ∃ d : V3 ℝ,
+      (∀ c, (tris.map fun t => t.nvec.get c).sum + d.get c = -(Polytri.newell poly).get c) ∧
+      V3.dot d d ≤ (lit 1 / lit 1000000000000) * V3.dot (Polytri.newell poly) (Polytri.newell poly) := by
+  obtain ⟨d, hd, hb⟩ := polytri_area_defect poly tris h
+  refine ⟨d, fun c => ?_, hb⟩
+  rw [Polytri.newell_get, neg_neg, hd c]
+  simp only [crossPhi_tri]
+
+/-- on the regular exit (`n − 2` triangles) the normal is preserved exactly -/
+theorem polytri_normal_exact (poly : List (V3 ℝ)) (tris : List (Tri ℝ))
+    (h : Polytri.triangulate poly = .ok tris) (hn : poly.length ≤ tris.length + 2) (c : Nat) :
+    (tris.map fun t => t.nvec.get c).sum = -(Polytri.newell poly).get c := by
+  have ht := polytri_triangulates poly tris h hn
+  rw [Polytri.newell_get, neg_neg, ht _ (Polytri.crossPhi_odd c), sumEdges_flatMap]
+  simp only [crossPhi_tri]
+
+/-! #### non-vacuity: the model's ear clipping of the unit square, evaluated over ℝ -/
+
+theorem newell_exSq : Polytri.newell exSq = ⟨0, 0, -2⟩ := by
+  simp [Polytri.newell, Polytri.newell.go, exSq, V3.zero, Scalar.lit]
+  norm_num
+
+theorem polytri_exSq_step1 (fuel : Nat) :
+    Polytri.loop (⟨0, 0, -2⟩ : V3 ℝ) (fuel + 1) #[⟨0,0,0⟩, ⟨1,0,0⟩, ⟨1,1,0⟩, ⟨0,1,0⟩] 0 []
+      = Polytri.loop ⟨0, 0, -2⟩ fuel #[⟨0,0,0⟩, ⟨1,1,0⟩, ⟨0,1,0⟩] 0 [⟨⟨0,0,0⟩, ⟨1,0,0⟩, ⟨1,1,0⟩⟩] := by
+  rw [Polytri.loop]
+  simp only [Nat.zero_add, Polytri.getLoop4, Polytri.others4, List.size_toArray, List.length_cons,
+    List.length_nil]
+  rw [Polytri.erase4]
+  norm_num [Polytri.veq, Polytri.anyPointInTriangle, V3.cross, V3.dot, V3.det3, Scalar.lit, Scalar.eqb]
+
+theorem polytri_exSq_step2 (fuel : Nat) (acc : List (Tri ℝ)) :
+    Polytri.loop (⟨0, 0, -2⟩ : V3 ℝ) (fuel + 1) #[⟨0,0,0⟩, ⟨1,1,0⟩, ⟨0,1,0⟩] 0 acc
+      = Polytri.loop ⟨0, 0, -2⟩ fuel #[⟨0,0,0⟩, ⟨0,1,0⟩] 0 (⟨⟨0,0,0⟩, ⟨1,1,0⟩, ⟨0,1,0⟩⟩ :: acc) := by
+  rw [Polytri.loop]
+  simp only [Nat.zero_add, Polytri.getLoop3, Polytri.others3, List.size_toArray, List.length_cons,
+    List.length_nil]
+  rw [Polytri.erase3]
+  norm_num [Polytri.veq, Polytri.anyPointInTriangle, V3.cross, V3.dot, V3.det3, Scalar.lit, Scalar.eqb]
+
+/-- the model clips the counter-clockwise unit square into the fan `exSqT` of C04 -/
+theorem polytri_exSq : Polytri.triangulate exSq = .ok exSqT := by
+  unfold Polytri.triangulate
+  simp only [newell_exSq]
+  have hd : Polytri.degenerate exSq (⟨0, 0, -2⟩ : V3 ℝ) = false := by
+    simp [Polytri.degenerate, Polytri.edgeSq, Polytri.edgeSq.go, exSq, V3.dot, Scalar.lit]
+    norm_num
+  rw [hd]
+  simp only [exSq, List.length_cons, List.length_nil]
+  norm_num only
+  rw [show (32 : Nat) = 29 + 1 + 1 + 1 from rfl, polytri_exSq_step1, polytri_exSq_step2, Polytri.loop]
+  simp [exSqT]
+
+/-- hypotheses of `polytri_boundary`, `polytri_length_le`, `polytri_triangulates` are met -/
+example : Polytri.triangulate exSq = .ok exSqT ∧ exSq.length ≤ exSqT.length + 2 :=
+  ⟨polytri_exSq, by simp [exSq, exSqT]⟩
+
+example : Triangulates exSq exSqT :=
+  polytri_triangulates _ _ polytri_exSq (by simp [exSq, exSqT])
 
 end
